@@ -85,8 +85,8 @@ func getCertificateInfo(c *x509.Certificate) (Info, error) {
 	}
 
 	info.Attributes = append(info.Attributes,
-		Attribute{"Not before", c.NotBefore.Format("2006-01-02")},
-		Attribute{"Not after", c.NotAfter.Format("2006-01-02")},
+		Attribute{"Not before", c.NotBefore.UTC().Format("2006-01-02")},
+		Attribute{"Not after", c.NotAfter.UTC().Format("2006-01-02")},
 		Attribute{"Key usage", strings.Join(x509KeyUsages(c.KeyUsage), ", ")},
 		Attribute{"Extended key usage", strings.Join(x509EKUs(c.ExtKeyUsage, c.UnknownExtKeyUsage), ", ")},
 	)
